@@ -284,6 +284,121 @@ fn c13_is_numeric_text() {
     kani::cover!(expect_some && dots == 1 && n == 3 && len == 5, "literal with inner dot followed by other text reached");
 }
 
+/// appends one character of a symbolically chosen UTF-8 length (1..=4 bytes) to the buffer
+fn push_char(buf: &mut [u8; 16], len: &mut usize, kind: u8, ascii: u8) -> usize {
+    match kind {
+        0 => {
+            buf[*len] = ascii; // any ASCII byte
+            *len += 1;
+            1
+        }
+        1 => {
+            buf[*len] = 0xCE; // α
+            buf[*len + 1] = 0xB1;
+            *len += 2;
+            2
+        }
+        2 => {
+            buf[*len] = 0xE2; // €
+            buf[*len + 1] = 0x82;
+            buf[*len + 2] = 0xAC;
+            *len += 3;
+            3
+        }
+        _ => {
+            buf[*len] = 0xF0; // U+1F600
+            buf[*len + 1] = 0x9F;
+            buf[*len + 2] = 0x98;
+            buf[*len + 3] = 0x80;
+            *len += 4;
+            4
+        }
+    }
+}
+
+/// C06/C13: the look-ahead helper of the tokenizer returns the length of the character that follows an operator
+/// name, for characters of every UTF-8 length, and never panics (precondition of its only call site: the name ends
+/// before the end of the text, on a character boundary).
+#[kani::proof]
+#[kani::unwind(20)]
+fn c06_next_char_boundary() {
+    let mut buf = [0u8; 16];
+    let mut len = 0usize;
+    // operator name: 1..=3 ASCII bytes
+    let name_len: usize = kani::any();
+    kani::assume(name_len >= 1 && name_len <= 3);
+    let mut i = 0;
+    while i < name_len {
+        buf[len] = b'a' + i as u8;
+        len += 1;
+        i += 1;
+    }
+    // the character behind the name, then up to two more characters
+    let k1: u8 = kani::any();
+    let a1: u8 = kani::any();
+    kani::assume(k1 < 4 && a1 < 128);
+    let first_len = push_char(&mut buf, &mut len, k1, a1);
+    let more: u8 = kani::any();
+    kani::assume(more <= 2);
+    let mut j = 0;
+    while j < more {
+        let k: u8 = kani::any();
+        let a: u8 = kani::any();
+        kani::assume(k < 4 && a < 128);
+        push_char(&mut buf, &mut len, k, a);
+        j += 1;
+    }
+    let text = unsafe { core::str::from_utf8_unchecked(&buf[..len]) };
+    let d = next_char_boundary(text, name_len);
+    assert!(d == first_len);
+    assert!(text.is_char_boundary(name_len + d));
+    kani::cover!(k1 == 3 && more == 0, "4-byte character at the end of the text reached");
+}
+
+/// C13: `is_numeric_text` on texts with multi-byte characters: the literal is the maximal prefix of digits and
+/// dots (at least one digit, at most one dot) and the returned slice ends on a character boundary.
+#[kani::proof]
+#[kani::unwind(20)]
+fn c13_is_numeric_text_utf8() {
+    let mut buf = [0u8; 16];
+    let mut len = 0usize;
+    let mut n = 0usize; // length of the digit/dot prefix
+    let mut dots = 0;
+    let mut digits = 0;
+    let mut in_prefix = true;
+    let count: u8 = kani::any();
+    kani::assume(count <= 4);
+    let mut j = 0;
+    while j < count {
+        let k: u8 = kani::any();
+        let a: u8 = kani::any();
+        kani::assume(k < 4 && a < 128);
+        push_char(&mut buf, &mut len, k, a);
+        if in_prefix && k == 0 && (a.is_ascii_digit() || a == b'.') {
+            n += 1;
+            if a == b'.' {
+                dots += 1;
+            } else {
+                digits += 1;
+            }
+        } else {
+            in_prefix = false;
+        }
+        j += 1;
+    }
+    let text = unsafe { core::str::from_utf8_unchecked(&buf[..len]) };
+    let expect_some = digits >= 1 && dots <= 1;
+    match is_numeric_text(text) {
+        Some(s) => {
+            assert!(expect_some);
+            assert!(s.len() == n);
+            assert!(text.is_char_boundary(s.len()));
+        }
+        None => assert!(!expect_some),
+    }
+    kani::cover!(expect_some && n == 2 && count == 3, "literal followed by a multi-byte character reached");
+}
+
 // ------------------------------------------------------------------------------------------
 // C09: index validation
 // ------------------------------------------------------------------------------------------
